@@ -41,6 +41,21 @@ def _orders(inp):
     return [int(o) for o in inp["orders"]]
 
 
+def _explicit_ops(cr, mode_seed):
+    """the crystal's own operations supplied by the caller: the same group, identity first, otherwise reordered
+    (even seed: shuffled; odd seed: rotation-major "for each point operation, for each lattice point")"""
+    rots, trans = ph.spg_ops(cr)
+    rs = np.random.default_rng(int(mode_seed))
+    idx = list(range(1, len(rots)))
+    if int(mode_seed) % 2 == 0:
+        idx = [int(i) for i in rs.permutation(idx)]
+    else:
+        idx.sort(key=lambda i: (rots[i].reshape(-1).tolist(), np.round(trans[i], 6).tolist()))
+    idx = [0] + idx
+    ok = np.array_equal(rots[0], np.eye(3, dtype=int)) and np.allclose(trans[0], 0)
+    return {"rotations": rots[idx], "translations": trans[idx]} if ok else None
+
+
 # ------------------------------------------------------------------ C01 / C02 / C03 / C08 / C09 basis-level
 def check_basis_invariants(inp, which=("perm", "spg", "sum", "ortho", "compact")) -> list:
     """expanded basis of one order: permutation symmetry, space-group invariance under ALL operations,
@@ -52,18 +67,7 @@ def check_basis_invariants(inp, which=("perm", "spg", "sum", "ortho", "compact")
     with Hooks(**hooks):
         for order in _orders(inp):
             if inp.get("explicit_ops") is not None:
-                # operations supplied by the caller: the same group, identity first, otherwise reordered
-                # (mode 0: shuffled; mode 1: rotation-major "for each point operation, for each lattice point")
-                rots, trans = ph.spg_ops(cr)
-                rs = np.random.default_rng(int(inp["explicit_ops"]))
-                idx = list(range(1, len(rots)))
-                if int(inp["explicit_ops"]) % 2 == 0:
-                    idx = [int(i) for i in rs.permutation(idx)]
-                else:
-                    idx.sort(key=lambda i: (rots[i].reshape(-1).tolist(), np.round(trans[i], 6).tolist()))
-                idx = [0] + idx
-                ok = np.array_equal(rots[0], np.eye(3, dtype=int)) and np.allclose(trans[0], 0)
-                ops = {"rotations": rots[idx], "translations": trans[idx]} if ok else None
+                ops = _explicit_ops(cr, inp["explicit_ops"])
                 bs = ph.basis_cls(order)(cr.atoms(), cutoff=(inp.get("cutoff") or {}).get(str(order)),
                                          spacegroup_operations=ops).run()
             elif hooks:
@@ -313,6 +317,9 @@ def check_normal_equations(inp) -> list:
                       hooks=inp.get("hooks"))
     except np.linalg.LinAlgError:
         return []          # "fails loudly" is allowed by the property
+    for o in orders:
+        if not np.all(np.isfinite(got[o])):
+            return [f"solver {orders}: non-finite force constants of order {o} returned without an exception"]
     pred = ph.taylor_forces(got, d)
     r = f - pred
     rs = np.random.default_rng(7)
@@ -324,7 +331,7 @@ def check_normal_equations(inp) -> list:
         Fd = ph.taylor_forces(delta, d)
         g = float(np.sum(r * Fd))
         den = float(np.linalg.norm(f) * np.linalg.norm(Fd)) + 1e-300
-        if abs(g) / den > inp.get("tol", 1e-6):
+        if not (abs(g) / den <= inp.get("tol", 1e-6)):
             out.append(f"solver {orders}: residual not orthogonal to an admissible force pattern "
                        f"(normalised gradient {abs(g)/den:.3e})")
             break
@@ -420,6 +427,10 @@ def gen_fit_inputs(rng, n, max_N=(6, 4, 3), combos=None):
         N = len(cr.numbers)
         nb = sum(sizes.values())
         n_snap = int(np.ceil(3.0 * nb / (3 * N))) + 4
+        if k % 3 == 2:
+            # "long dataset" stream: more snapshots than the solvers' default batch size (100), with a remainder, so
+            # that the snapshot-batch loop of EVERY solver (also those the API gives no batch_size) runs unequal batches
+            n_snap = max(n_snap, rng.choice([101, 130, 137]))
         yield {"crystal": cr, "orders": list(orders), "n_snap": n_snap, "data_seed": rng.randrange(10 ** 6),
                "compact": rng.random() < 0.5, "batch_size": rng.choice([None, 1, 3, 7]),
                "hooks": rng.choice([None, None, {"solver_nbatch": 2}])}
@@ -1074,8 +1085,9 @@ def check_basis_o1(inp) -> list:
     pc = pc.toarray() if hasattr(pc, "toarray") else np.asarray(pc)
     if float(np.abs(pc - np.kron(np.ones((N, N)) / N, np.eye(3))).max()) > 1e-12:
         out.append("order 1: sum-rule complement is not (1/N) 1 (x) I_3")
+    ops = _explicit_ops(cr, inp["explicit_ops"]) if inp.get("explicit_ops") is not None else None
     try:
-        bs = FCBasisSetO1(cr.atoms()).run()
+        bs = FCBasisSetO1(cr.atoms(), spacegroup_operations=ops).run()
     except ValueError as e:
         if "No basis vectors exist" in str(e):
             return [] if dim == 0 else [f"order 1: 'No basis vectors exist' but the admissible space has dimension {dim}"]
